@@ -24,6 +24,8 @@ def parse(files):
             rnd = 1
             if m.startswith("r2-"):
                 rnd, m = 2, m[3:]
+            elif m.startswith("r6-"):
+                rnd, m = 6, m[3:]
             elif m.startswith("r5-"):
                 rnd, m = 5, m[3:]
             elif m.startswith("r4-"):
